@@ -146,6 +146,30 @@ def signals(rec):
                     res.append(('C16.a:der_time_signal:' + tag, 'ok' if okm else 'mismatch', 'der((x+v)*t) sampled %s expected %s' % (list(got)[:4], want[:4])))
             except Exception as e:
                 res.append(('C17.b:%s:%s' % ('der' if with_der else 'signal', tag), 'error', '%s: %s' % (type(e).__name__, (str(e).splitlines() or [''])[-1][:160])))
+    # ocp.integral of an integrand that mentions a B-spline signal only (no state, no time) under DirectCollocation: the collocation
+    # quadrature of the stage, not a left sum (C05)
+    try:
+        ocp = Ocp(t0=0.5, T=T)
+        x = ocp.state(); u = ocp.control(); ocp.set_der(x, u)
+        v = ocp.variable(grid='bspline', order=d)
+        ocp.add_objective(ocp.integral(v ** 2)); ocp.subject_to(ocp.at_t0(x) == 0)
+        ocp.solver('ipopt')
+        ocp.method(DirectCollocation(N=N, M=1, degree=2, scheme='radau', grid=FunctionGrid(lambda n: list(nodes))))
+        quiet(lambda: ocp._transcribed)
+        opti, vx, vp = _inputs(ocp)
+        nx = vx.numel(); pv = np.zeros(vp.numel())
+        rng = np.random.RandomState(3)
+        pts = [(rng.uniform(0.5, 1.5, nx), pv), (rng.uniform(-1.5, -0.5, nx), pv)]
+        loc = locate(ocp._method.signals[v].coeff, opti, pts)
+        xv = np.zeros(nx)
+        for l, cval in zip(loc, rec['coef']): xv[l[0]] = fl(cval) / l[1]
+        fobs = float(ca.Function('f', [vx, vp], [opti.f])(xv, pv))
+        if isbad(rec['quad2']): res.append(('C05.s:integral_signal', 'inconclusive', ''))
+        else:
+            want = T * fl(rec['quad2'])
+            res.append(('C05.s:integral_signal', 'ok' if abs(fobs - want) <= 1e-9 * max(1, abs(want)) else 'mismatch', 'objective %r, collocation quadrature of the signal %r' % (fobs, want)))
+    except Exception as e:
+        res.append(('C05.s:integral_signal', 'error', '%s: %s' % (type(e).__name__, (str(e).splitlines() or [''])[-1][:160])))
     # a bspline *parameter* in the ODE next to a global variable: explicit Euler gap rows
     try:
         ocp = Ocp(t0=0.5, T=T)
